@@ -219,9 +219,38 @@ print(json.dumps({"cases": n, "bad": bad[:5], "nbad": len(bad)}))
     return {'confirmed': False, 'input': None, 'observed': out, 'expected': 'wrapped function evaluated at %s' % inner}
 
 
+def slice_replay(ctx, o):
+    """Slice2D/Slice3D on the compiled code: every axis selector (integer, letter in either case), asymmetric recording function."""
+    from replaylib.native import run_native
+    code = """
+from cherab.core.math import Slice2D, Slice3D
+seen = []
+def f2(a, b): seen.append((a, b)); return 1.0
+def f3(a, b, c): seen.append((a, b, c)); return 1.0
+bad = []; n = 0
+for axis, k in ((0, 0), (1, 1), ('x', 0), ('y', 1), ('X', 0), ('Y', 1)):
+    for v, x in ((-2.5, 4.0), (0.0, -1.0), (7.0, 0.0)):
+        del seen[:]; Slice2D(f2, axis, v)(x); n += 1
+        want = [x, x]; want[k] = v
+        if seen != [tuple(want)]: bad.append({"class": "Slice2D", "axis": axis, "value": v, "x": x, "inner_arguments": seen[:1], "expected": want})
+for axis, k in ((0, 0), (1, 1), (2, 2), ('x', 0), ('y', 1), ('z', 2), ('X', 0), ('Y', 1), ('Z', 2)):
+    for v, x, y in ((-2.5, 4.0, 9.0), (0.0, -1.0, 3.0), (7.0, 0.0, -6.0)):
+        del seen[:]; Slice3D(f3, axis, v)(x, y); n += 1
+        want = [x, y]; want.insert(k, v)
+        if seen != [tuple(want)]: bad.append({"class": "Slice3D", "axis": axis, "value": v, "x": x, "y": y, "inner_arguments": seen[:1], "expected": want})
+print(json.dumps({"cases": n, "bad": bad[:5], "nbad": len(bad)}))
+"""
+    out = run_native(ctx, code, timeout=300)
+    if out and out.get('nbad'):
+        return {'confirmed': True, 'input': out['bad'][0], 'observed': out, 'expected': 'wrapped function with the fixed value inserted at the sliced axis, free arguments in order'}
+    return {'confirmed': False, 'input': None, 'observed': out, 'expected': 'wrapped function with the fixed value inserted at the sliced axis'}
+
+
 def native_replay(ctx, o):
     """Replay a refuted remainder obligation on the real compiled code: PeriodicTransform1D hands remainder(x, period) to
     the wrapped function, which records the argument it receives."""
+    if '.Slice2D.' in o.name or '.Slice3D.' in o.name:
+        return slice_replay(ctx, o)
     if 'remainder' not in o.name:
         return battery_replay(ctx, o)
     if not o.model:
